@@ -62,12 +62,11 @@ def chk_terminals(
     after trimming actions during optimization.
 
     """
-    new_out_ports = frozenset(_port_defs.get_out_ports(processor)).difference(
-        orig_port_info.out_ports
-    )
-
-    for out_port in new_out_ports:
-        _rm_dead_end(processor, out_port, orig_port_info.in_ports)
+    while new_out_ports := frozenset(
+        _port_defs.get_out_ports(processor)
+    ).difference(orig_port_info.out_ports):
+        for out_port in new_out_ports:
+            _rm_dead_end(processor, out_port, orig_port_info.in_ports)
 
 
 def clean_struct(processor: DiGraph) -> None:
